@@ -342,10 +342,19 @@ def c08(ctx):
     for _ in range(rounds):
         x = rng.choice("xyz")
         c1, c2 = rnd_coef(rng), rnd_coef(rng)
-        L, R = rnd_sub(rng), rnd_sub(rng)
+        L, R, M = rnd_sub(rng), rnd_sub(rng), rnd_sub(rng)
         addend = rng.choice([C(c1), term(c2, x, None), V(x)])
         for name, tree, idx_path, expected, applicable in (
             ("move addend", B("eq", B("add", L, addend), R), [3, 4], B("eq", L, B("sub", R, addend)), True),
+            # addends deeper inside a chain of additions, on either side of '='
+            ("move addend out of a chain (left side)", B("eq", B("add", B("add", L, addend), M), R), [3, 3, 4],
+             B("eq", B("add", L, M), B("sub", R, addend)), True),
+            ("move first addend of a chain (right side)", B("eq", L, B("add", B("add", addend, M), R)), [4, 3, 3],
+             B("eq", B("sub", L, addend), B("add", M, R)), True),
+            ("move middle addend of a chain (right side)", B("eq", L, B("add", B("add", M, addend), R)), [4, 3, 4],
+             B("eq", B("sub", L, addend), B("add", M, R)), True),
+            ("move addend of a right-nested group (left side)", B("eq", B("add", M, B("add", addend, L)), R), [3, 4, 3],
+             B("eq", B("add", M, L), B("sub", R, addend)), True),
             ("divide coefficient", B("eq", B("mul", C(c1), V(x)), R), [3, 3],
              B("eq", B("div", B("mul", C(c1), V(x)), C(c1)), B("div", R, C(c1))), True),
             ("addend inside a product is not movable", B("eq", B("mul", C(c2), B("add", V(x), C(c1))), R), [3, 4, 4], None, False),
